@@ -8,10 +8,11 @@ from vlib import (Inconclusive, Scratch, Verdict, copy_specs, go_build, log, mak
                   validate_sharded, write_evidence, NCPU)
 
 FAMILY = "hlog"
-KINDS = ["url", "method", "request", "remoteaddr", "remoteip", "useragent", "referer", "proto", "custom", "host"]
+KINDS = ["url", "method", "request", "remoteaddr", "remoteip", "useragent", "referer", "proto", "custom", "host", "httpversion", "requestid", "etag", "respheader"]
 CHAINS = {"C2": [["url", "method"], ["useragent", "remoteaddr", "custom"]],
           "C3": [["url", "method", "host"], ["request", "remoteip"], ["referer", "proto", "url"]],
-          "C3b": [["url"], ["url", "method", "useragent", "custom"], []]}
+          "C3b": [["url"], ["url", "method", "useragent", "custom"], []],
+          "C3c": [["requestid", "url"], ["etag", "requestid", "respheader"], ["httpversion", "etag"]]}
 
 
 def iso_part(sc, tier, seed, nfree=None):
@@ -124,5 +125,5 @@ def check(pid, tier, seed, replay=None):
                "checker_cmd": "tlc MCHlog.tla (Isolated); tlc RespProxy.tla (sequences); tlc HlogTrace.tla / RespProxyTrace.tla"}
         write_evidence(pid, tier, seed, "model_checking", cov, time.time() - t0, len(v.violations),
                        assumptions=["handler boundaries (next.ServeHTTP) are the scheduling points; expected values are read from the request with plain getters",
-                                    "RequestID / Etag / ResponseHeader handlers are not driven (their values are not a function of the request alone)"])
+                                    "RequestIDHandler: the expected id is what IDFromRequest gives the innermost handler, which must equal the response header; Etag / ResponseHeader values are logged by an event after the chain returned"])
     return v.finish()
